@@ -10,12 +10,8 @@ open LinVerif.Json
 
 /-! ## Expressions -/
 
-theorem marshal_obj (e : Expr) : ∃ kvs, marshal e = .obj kvs := by
-  cases e <;> simp [marshal]
-
-theorem rawElem_marshal (e : Expr) : rawElem (marshal e) = some (marshal e) := by
-  obtain ⟨kvs, hk⟩ := marshal_obj e
-  simp [hk, rawElem]
+theorem rawElem_marshal (e : Expr) : rawElem (marshal e) = marshalRaw e := by
+  cases e <;> simp [marshal, rawElem, marshalRaw]
 
 theorem strElems_map (vs : List String) : strElems (vs.map .str) = .ok vs := by
   induction vs with
@@ -23,80 +19,77 @@ theorem strElems_map (vs : List String) : strElems (vs.map .str) = .ok vs := by
   | cons a t ih => simp [strElems, ih, Except.map]
 
 mutual
-theorem unmarshal_marshal : ∀ e : Expr, unmarshal (some (marshal e)) = if e.allFinite then .ok e else .error .syntax
+theorem unmarshal_marshal : ∀ e : Expr,
+    unmarshal (marshalRaw e) = if e.wellFormed then .ok e else .error .syntax
+  | .nil => by simp [marshalRaw, unmarshal, Expr.wellFormed]
   | .field n => by
-    simp [marshal, unmarshal, getStr, lookup, getRaw, unmarshalField, leafFields, structFields, bind, Except.bind, pure, Except.pure, Expr.allFinite]
+    simp [marshalRaw, marshal, unmarshal, getStr, lookup, getRaw, rawElem, unmarshalField, leafFields, structFields, bind, Except.bind, pure, Except.pure, Expr.wellFormed]
   | .number f => by
     by_cases hf : f.isFinite <;>
-    simp [marshal, unmarshal, getStr, getFlt, lookup, getRaw, unmarshalNumber, leafFields, structFields, bind, Except.bind, pure, Except.pure, Expr.allFinite, hf]
+    simp [marshalRaw, marshal, unmarshal, getStr, getFlt, lookup, getRaw, rawElem, unmarshalNumber, leafFields, structFields, bind, Except.bind, pure, Except.pure, Expr.wellFormed, hf]
   | .equals k v => by
-    simp [marshal, unmarshal, getStr, lookup, getRaw, unmarshalEquals, leafFields, structFields, bind, Except.bind, pure, Except.pure, Expr.allFinite]
+    simp [marshalRaw, marshal, unmarshal, getStr, lookup, getRaw, rawElem, unmarshalEquals, leafFields, structFields, bind, Except.bind, pure, Except.pure, Expr.wellFormed]
   | .like k v => by
-    simp [marshal, unmarshal, getStr, lookup, getRaw, unmarshalLike, leafFields, structFields, bind, Except.bind, pure, Except.pure, Expr.allFinite]
+    simp [marshalRaw, marshal, unmarshal, getStr, lookup, getRaw, rawElem, unmarshalLike, leafFields, structFields, bind, Except.bind, pure, Except.pure, Expr.wellFormed]
   | .regex k v => by
-    simp [marshal, unmarshal, getStr, lookup, getRaw, unmarshalRegex, leafFields, structFields, bind, Except.bind, pure, Except.pure, Expr.allFinite]
+    simp [marshalRaw, marshal, unmarshal, getStr, lookup, getRaw, rawElem, unmarshalRegex, leafFields, structFields, bind, Except.bind, pure, Except.pure, Expr.wellFormed]
   | .inE k vs => by
     cases vs with
-    | nil => simp [marshal, strArr, unmarshal, getStr, getStrList, lookup, getRaw, unmarshalIn, leafFields, structFields, bind, Except.bind, pure, Except.pure, Expr.allFinite]
+    | nil => simp [marshalRaw, marshal, strArr, unmarshal, getStr, getStrList, lookup, getRaw, rawElem, unmarshalIn, leafFields, structFields, bind, Except.bind, pure, Except.pure, Expr.wellFormed]
     | cons a t =>
       have := strElems_map (a :: t)
-      simp [marshal, strArr, unmarshal, getStr, getStrList, lookup, getRaw, unmarshalIn, leafFields, structFields, bind, Except.bind, pure, Except.pure, Expr.allFinite] at this ⊢
+      simp [marshalRaw, marshal, strArr, unmarshal, getStr, getStrList, lookup, getRaw, rawElem, unmarshalIn, leafFields, structFields, bind, Except.bind, pure, Except.pure, Expr.wellFormed] at this ⊢
       simp [this]
   | .paren e => by
     have ih := unmarshal_marshal e
-    obtain ⟨kvs, hk⟩ := marshal_obj e
-    simp only [marshal]
+    simp only [marshalRaw, marshal]
     rw [unmarshal]
-    simp [getStr, lookup, getRaw, hk, Expr.allFinite] at ih ⊢
-    rw [ih]; by_cases h1 : e.allFinite <;> simp [h1]
+    simp [getStr, lookup, getRaw, rawElem_marshal, Expr.wellFormed]
+    rw [ih]; by_cases h1 : e.wellFormed <;> simp [h1]
   | .not e => by
     have ih := unmarshal_marshal e
-    obtain ⟨kvs, hk⟩ := marshal_obj e
-    simp only [marshal]
+    simp only [marshalRaw, marshal]
     rw [unmarshal]
-    simp [getStr, lookup, getRaw, hk, Expr.allFinite] at ih ⊢
-    rw [ih]; by_cases h1 : e.allFinite <;> simp [h1]
+    simp [getStr, lookup, getRaw, rawElem_marshal, Expr.wellFormed]
+    rw [ih]; by_cases h1 : e.wellFormed <;> simp [h1]
   | .selectItem e a => by
     have ih := unmarshal_marshal e
-    obtain ⟨kvs, hk⟩ := marshal_obj e
-    simp only [marshal]
+    simp only [marshalRaw, marshal]
     rw [unmarshal]
-    simp [getStr, lookup, getRaw, hk, Expr.allFinite] at ih ⊢
-    rw [ih]; by_cases h1 : e.allFinite <;> simp [h1]
+    simp [getStr, lookup, getRaw, rawElem_marshal, Expr.wellFormed]
+    rw [ih]; by_cases h1 : e.wellFormed <;> simp [h1]
   | .orderBy e a => by
     have ih := unmarshal_marshal e
-    obtain ⟨kvs, hk⟩ := marshal_obj e
-    simp only [marshal]
+    simp only [marshalRaw, marshal]
     rw [unmarshal]
-    simp [getStr, getBool, lookup, getRaw, hk, Expr.allFinite] at ih ⊢
-    rw [ih]; by_cases h1 : e.allFinite <;> simp [h1]
+    simp [getStr, getBool, lookup, getRaw, rawElem_marshal, Expr.wellFormed]
+    rw [ih]; by_cases h1 : e.wellFormed <;> simp [h1]
   | .binary l r op => by
     have ih := unmarshal_marshal l
     have ih2 := unmarshal_marshal r
-    obtain ⟨kvs, hk⟩ := marshal_obj l
-    obtain ⟨kvs2, hk2⟩ := marshal_obj r
-    simp only [marshal]
+    simp only [marshalRaw, marshal]
     rw [unmarshal]
-    simp [getStr, getInt, lookup, getRaw, hk, hk2, Expr.allFinite] at ih ih2 ⊢
+    simp [getStr, getInt, lookup, getRaw, rawElem_marshal, Expr.wellFormed]
     rw [ih, ih2]
-    by_cases h1 : l.allFinite <;> by_cases h2 : r.allFinite <;> simp [h1, h2]
+    by_cases h1 : l.wellFormed <;> by_cases h2 : r.wellFormed <;> simp [h1, h2]
   | .call ft ps => by
     have ih := unmarshalAll_marshalList ps
-    simp only [marshal]
+    simp only [marshalRaw, marshal]
     rw [unmarshal]
     cases ps with
-    | nil => simp [getStr, getInt, getRawList, arrElems, lookup, unmarshalAll, Expr.allFinite, allFiniteList]
+    | nil => simp [getStr, getInt, getRawList, arrElems, lookup, unmarshalAll, Expr.wellFormed, wellFormedList]
     | cons a t =>
-      simp [getStr, getInt, getRawList, arrElems, lookup, Expr.allFinite] at ih ⊢
-      rw [ih]; by_cases h1 : allFiniteList (a :: t) <;> simp [h1]
-theorem unmarshalAll_marshalList : ∀ es : List Expr, unmarshalAll (marshalList es) = if allFiniteList es then .ok es else .error .syntax
-  | [] => by simp [marshalList, unmarshalAll, allFiniteList]
+      simp [getStr, getInt, getRawList, arrElems, lookup, Expr.wellFormed] at ih ⊢
+      rw [ih]; by_cases h1 : wellFormedList (a :: t) <;> simp [h1]
+theorem unmarshalAll_marshalList : ∀ es : List Expr,
+    unmarshalAll (marshalList es) = if wellFormedList es then .ok es else .error .syntax
+  | [] => by simp [marshalList, unmarshalAll, wellFormedList]
   | e :: es => by
     have ih := unmarshal_marshal e
     have ih2 := unmarshalAll_marshalList es
     simp only [marshalList]
     rw [unmarshalAll, rawElem_marshal, ih, ih2]
-    by_cases h1 : e.allFinite <;> by_cases h2 : allFiniteList es <;> simp [h1, h2, allFiniteList]
+    by_cases h1 : e.wellFormed <;> by_cases h2 : wellFormedList es <;> simp [h1, h2, wellFormedList]
 end
 
 /-! ## Interval -/
@@ -246,9 +239,10 @@ theorem lookup_optField (k' : String) (empty : Bool) (v : Json) (k : String) :
     lookup (optField k' empty v) k = if empty = false ∧ k' = k then some v else none := by
   cases empty <;> simp [optField, lookup]
 
-theorem lookup_optExpr (k' : String) (e : Option Expr) (k : String) :
-    lookup (optExpr k' e) k = if k' = k then e.map marshal else none := by
-  cases e <;> simp [optExpr, lookup]
+theorem lookup_optExpr (k' : String) (e : Expr) (k : String) :
+    lookup (optExpr k' e) k = if k' = k then marshalRaw e else none := by
+  unfold optExpr
+  cases h : marshalRaw e <;> simp [lookup]
 
 /-- a lookup in the marshalled statement, computed symbolically -/
 macro "qlookup" : tactic =>
@@ -316,25 +310,22 @@ theorem q_orderElems (q : Query) : arrElems (queryFields q) "orderByItems" = mar
   unfold arrElems; qlookup
   cases h : q.orderByItems <;> simp [marshalList]
 
-theorem getRaw_marshal_opt (e : Option Expr) :
-    (match e.map marshal with | none => none | some Json.null => none | some v => some v) = e.map marshal := by
+theorem rawElem_marshalRaw (e : Expr) :
+    (match marshalRaw e with | none => none | some v => rawElem v) = marshalRaw e := by
+  cases e <;> simp [marshalRaw, marshal, rawElem]
+
+theorem q_condition (q : Query) : getRaw (queryFields q) "condition" = marshalRaw q.condition := by
+  unfold getRaw; qlookup; exact rawElem_marshalRaw _
+
+theorem q_having (q : Query) : getRaw (queryFields q) "having" = marshalRaw q.having := by
+  unfold getRaw; qlookup; exact rawElem_marshalRaw _
+
+theorem unmarshalOpt_marshal (e : Expr) :
+    unmarshalOpt (marshalRaw e) = if optWellFormed e then .ok e else .error .syntax := by
+  have h := unmarshal_marshal e
   cases e with
-  | none => rfl
-  | some x => obtain ⟨kvs, hk⟩ := marshal_obj x; simp [hk]
-
-theorem q_condition (q : Query) : getRaw (queryFields q) "condition" = q.condition.map marshal := by
-  unfold getRaw; qlookup; exact getRaw_marshal_opt _
-
-theorem q_having (q : Query) : getRaw (queryFields q) "having" = q.having.map marshal := by
-  unfold getRaw; qlookup; exact getRaw_marshal_opt _
-
-theorem unmarshalOpt_marshal (e : Option Expr) :
-    unmarshalOpt (e.map marshal) = if optAllFinite e then .ok e else .error .syntax := by
-  cases e with
-  | none => simp [unmarshalOpt, optAllFinite]
-  | some x =>
-    simp only [Option.map, unmarshalOpt, unmarshal_marshal, optAllFinite]
-    by_cases h : x.allFinite <;> simp [h, Except.map]
+  | nil => simp [unmarshalOpt, marshalRaw, optWellFormed]
+  | _ => exact h
 
 /-- what the wire keeps of a statement: everything, except that both intervals are cut to whole
 seconds by `Interval.String` -/
@@ -343,7 +334,7 @@ def Query.wireImage (q : Query) : Query :=
            storageInterval := q.storageInterval - q.storageInterval.tmod 1000 }
 
 theorem unmarshalQuery_marshalQuery (q : Query) :
-    unmarshalQuery (marshalQuery q) = if q.allFinite then .ok q.wireImage else .error .syntax := by
+    unmarshalQuery (marshalQuery q) = if q.wellFormed then .ok q.wireImage else .error .syntax := by
   obtain ⟨r1, h1⟩ := q_selectRaw q
   obtain ⟨r2, h2⟩ := q_orderRaw q
   simp only [unmarshalQuery, marshalQuery, structFields, bind, Except.bind, pure, Except.pure,
@@ -351,9 +342,9 @@ theorem unmarshalQuery_marshalQuery (q : Query) :
     q_storage, q_groupBy, h1, h2, q_selectElems, q_orderElems, q_condition, q_having,
     unmarshalOpt_marshal, unmarshalAll_marshalList]
   simp only [getInt, lookup]
-  simp only [Query.allFinite, Query.wireImage]
-  by_cases c1 : optAllFinite q.condition <;> by_cases c2 : optAllFinite q.having <;>
-    by_cases c3 : allFiniteList q.selectItems <;> by_cases c4 : allFiniteList q.orderByItems <;>
+  simp only [Query.wellFormed, Query.wireImage]
+  by_cases c1 : optWellFormed q.condition <;> by_cases c2 : optWellFormed q.having <;>
+    by_cases c3 : wellFormedList q.selectItems <;> by_cases c4 : wellFormedList q.orderByItems <;>
     simp [c1, c2, c3, c4]
 
 
@@ -374,14 +365,14 @@ theorem m_kind (m : Metadata) : getInt (metadataFields m) "type" = .ok m.kind :=
   unfold getInt; mlookup; by_cases h : m.kind = 0 <;> simp [h]
 theorem m_limit (m : Metadata) : getInt (metadataFields m) "limit" = .ok m.limit := by
   unfold getInt; mlookup; by_cases h : m.limit = 0 <;> simp [h]
-theorem m_condition (m : Metadata) : getRaw (metadataFields m) "condition" = m.condition.map marshal := by
-  unfold getRaw; mlookup; exact getRaw_marshal_opt _
+theorem m_condition (m : Metadata) : getRaw (metadataFields m) "condition" = marshalRaw m.condition := by
+  unfold getRaw; mlookup; exact rawElem_marshalRaw _
 
 theorem unmarshalMetadata_marshalMetadata (m : Metadata) :
     unmarshalMetadata (marshalMetadata m) =
-      if optAllFinite m.condition then .ok m else .error .syntax := by
+      if optWellFormed m.condition then .ok m else .error .syntax := by
   simp only [unmarshalMetadata, marshalMetadata, structFields, bind, Except.bind, pure, Except.pure,
     m_ns, m_metric, m_tagKey, m_prefix, m_kind, m_limit, m_condition, unmarshalOpt_marshal]
-  by_cases c1 : optAllFinite m.condition <;> simp [c1]
+  by_cases c1 : optWellFormed m.condition <;> simp [c1]
 
 end LinVerif.Stmt
